@@ -13,11 +13,9 @@ def make_packet(d, cls):
     return p
 
 
-def replay_clause(contract, name, model, inputs, notes):
+def replay_clause(contract, name, conc, notes):
     """run the real function on the model's input and evaluate the failed
     clause natively"""
-    import copy
-    conc = {k: api.concretize(model, v) for k, v in inputs.items()}
     return replay_concrete(contract, name, conc)
 
 
@@ -68,6 +66,23 @@ def replay_concrete(contract, name, conc):
         holds = not outcome.startswith("raise") if "must_raise" in name else None
         if "unexpected" in name:
             holds = not outcome.startswith("raise")
+    elif outcome == "return":
+        # an intermediate obligation (loop invariant, call-site requires):
+        # the input is a failing input iff some postcondition fails natively
+        failed = []
+        for k, c in contract.ensures.items():
+            try:
+                if not eval(c, env):
+                    failed.append(k)
+            except Exception as e:
+                failed.append(f"{k} raised {e!r}")
+        clause = "all ensures clauses"
+        holds = None if not failed else False
+        detail = f"postconditions failing natively: {failed}; "
+    elif outcome.startswith("raise") and not any(
+            isinstance(result, r.exc) for r in contract.raises):
+        holds = False
+        detail = "unexpected exception; "
     return {"inputs": {k: v for k, v in conc.items()},
             "reproduced": (None if holds is None else (not holds)),
             "detail": detail + f"real code outcome: {outcome}; clause `{clause}` -> {holds}"}
@@ -79,7 +94,7 @@ def run(tier, seed):
     for a in lib.ASSUMED:
         rep.assume(a)
     for c in (S.append, S.full, S.assemble):
-        api.verify(c, rep, replay=lambda n, m, i, nt, c=c: replay_clause(c, n, m, i, nt))
+        api.verify(c, rep, replay=lambda n, i, nt, c=c: replay_clause(c, n, i, nt))
     return rep.finish(
         explanation="pyvc: symbolic execution of the real source of "
         "Packet.append/full/assemble against sidecar contracts; one z3 query "
